@@ -1,3 +1,5 @@
+//go:build !verifsched
+
 package props
 
 import (
@@ -28,8 +30,10 @@ func init() {
 		Assumptions: []string{"refp7 verifier over the der TLV walker, crypto/rsa, crypto/sha256", "RSA and SHA-256 themselves are trusted", "soundness is relative to the enumerated derivation families"},
 		Units:       c04Units,
 		Run:         c04Run,
-		Bound:       func(tier string) map[string]any { return map[string]any{"byte_values_per_position": map[string]int{"quick": 12, "thorough": 255}[tier]} },
-		Budget:      dur(5*time.Minute, 40*time.Minute),
+		Bound: func(tier string) map[string]any {
+			return map[string]any{"byte_values_per_position": map[string]int{"quick": 12, "thorough": 255}[tier]}
+		},
+		Budget: dur(5*time.Minute, 40*time.Minute),
 	})
 }
 
